@@ -68,6 +68,11 @@ pub struct BCase {
     /// `allow`); None = the same list as before
     #[serde(default)]
     pub restart_allow: Option<Option<(u8, u8)>>,
+    /// after the history: client 0's snapshot is re-stamped so that it turns `snapshot_days` days
+    /// old two seconds later; one AddVersion at once, one four seconds later - the second one must
+    /// see the age the wall clock now says (the server has been running all the while)
+    #[serde(default)]
+    pub cross_age: bool,
 }
 
 pub struct Proc {
@@ -207,12 +212,25 @@ fn plan_launch(bc: &BCase, dir: &Path, clients: &[Uuid]) -> Option<Launch> {
             }
             ListStyle::Env => env.push(("CLIENT_ID".into(), ids.join(","))),
         }
+        // an option given on the command line is not also taken from the environment: a
+        // CLIENT_ID variable left in the environment (naming the history's *other* clients) next
+        // to the flags changes nothing
+        if bc.allow_style != ListStyle::Env && bc.salt % 4 == 1 {
+            let others: Vec<String> = clients.iter().skip(k as usize).map(|c| c.to_string()).collect();
+            if !others.is_empty() {
+                env.push(("CLIENT_ID".into(), others.join(",")));
+            }
+        }
     }
     match bc.snapshot_versions.0 {
         Src::Default => {}
         Src::Flag => {
             args.push("--snapshot-versions".into());
             args.push(bc.snapshot_versions.1.to_string());
+            if bc.salt % 4 == 2 {
+                // (likewise: the flag is what the operator configured)
+                env.push(("SNAPSHOT_VERSIONS".into(), (bc.snapshot_versions.1 % 1000 + 3).to_string()));
+            }
         }
         Src::Env => env.push(("SNAPSHOT_VERSIONS".into(), bc.snapshot_versions.1.to_string())),
     }
@@ -221,6 +239,9 @@ fn plan_launch(bc: &BCase, dir: &Path, clients: &[Uuid]) -> Option<Launch> {
         Src::Flag => {
             args.push("--snapshot-days".into());
             args.push(bc.snapshot_days.1.to_string());
+            if bc.salt % 4 == 3 {
+                env.push(("SNAPSHOT_DAYS".into(), (bc.snapshot_days.1 % 1000 + 2).to_string()));
+            }
         }
         Src::Env => env.push(("SNAPSHOT_DAYS".into(), bc.snapshot_days.1.to_string())),
     }
@@ -400,6 +421,46 @@ pub fn check(bc: &BCase, st: &mut Stats) -> CheckResult {
             refused += 1;
         }
     }
+    if bc.cross_age && cfg.snapshot_days >= 1 && cfg.snapshot_days < 10_000 {
+        use taskchampion_sync_server_core::Snapshot;
+        let c = h.clients[0];
+        let m = h.model.client(c);
+        if let Some(sn) = &m.snap {
+            let stamp = chrono::Utc::now() - chrono::Duration::seconds(cfg.snapshot_days * 86400 - 2);
+            (|| -> anyhow::Result<()> {
+                let mut t = h.drv.storage.txn(c)?;
+                t.set_snapshot(Snapshot { version_id: sn.version, timestamp: stamp, versions_since: sn.since as u32 }, sn.data.to_vec())?;
+                t.commit()
+            })()
+            .map_err(|e| Fail::Inconclusive(format!("re-stamping the snapshot: {e:#}")))?;
+            let allowed_at = |days: i64, since: u64| crate::model::allowed_urgency(&cfg, Some((since, days)));
+            let first = h.drv.add_version(c, m.latest(), b"just before the snapshot turns old enough");
+            let Outcome::Accepted { id: v_a, urgency: u_a } = first else { return v(format!("{what}: AddVersion before the crossing: {}", first.short())) };
+            let mut ok_a = allowed_at(cfg.snapshot_days - 1, sn.since);
+            ok_a.extend(allowed_at(cfg.snapshot_days, sn.since));
+            if !ok_a.contains(&u_a) {
+                return v(format!("{what}: a snapshot {} days old minus two seconds, {} versions since: AddVersion reported {u_a:?}, allowed {ok_a:?}", cfg.snapshot_days, sn.since));
+            }
+            std::thread::sleep(Duration::from_secs(4));
+            let second = h.drv.add_version(c, v_a, b"after it did");
+            let Outcome::Accepted { id: v_b, urgency: u_b } = second else { return v(format!("{what}: AddVersion after the crossing: {}", second.short())) };
+            let ok_b = allowed_at(cfg.snapshot_days, sn.since + 1);
+            if !ok_b.contains(&u_b) {
+                return v(format!("{what}: the stored snapshot turned {} days old while the server was running ({} versions since): AddVersion then reported {u_b:?}, the configured targets demand {ok_b:?}", cfg.snapshot_days, sn.since + 1));
+            }
+            let data_a: std::sync::Arc<Vec<u8>> = std::sync::Arc::new(b"just before the snapshot turns old enough".to_vec());
+            let data_b: std::sync::Arc<Vec<u8>> = std::sync::Arc::new(b"after it did".to_vec());
+            h.know(v_a);
+            h.know(v_b);
+            let lat = m.latest();
+            h.model.client_mut(c).apply_accept(v_a, lat, data_a);
+            h.model.client_mut(c).apply_accept(v_b, v_a, data_b);
+            if let Some(s2) = &mut h.model.client_mut(c).snap {
+                s2.days = cfg.snapshot_days;
+            }
+            st.label("c17:snapshot-turns-old-enough-while-the-server-runs");
+        }
+    }
     // every listen address serves the same state
     for a in &proc.addrs {
         let r = exchange(*a, &HttpReq { method: "GET".into(), path: "/".into(), headers: vec![], chunks: vec![], stalls: vec![] }, Encoding::ContentLength, &[], Duration::from_secs(10));
@@ -564,7 +625,7 @@ fn bcase(max_ops: usize) -> BoxedStrategy<BCase> {
         .prop_map(|(mut hosts, listen_style, data_dir_src, allow, allow_style, snapshot_versions, snapshot_days, ops, salt, (kill_restart, dir_form, restart_allow))| {
             hosts.dedup();
             let restart_allow = if kill_restart && restart_allow != Some(allow) { restart_allow } else { None };
-            BCase { hosts, listen_style, data_dir_src, allow, allow_style, snapshot_versions, snapshot_days, ops, salt: salt & 0xFFFF, kill_restart, dir_form, restart_allow }
+            BCase { hosts, listen_style, data_dir_src, allow, allow_style, snapshot_versions, snapshot_days, ops, salt: salt & 0xFFFF, kill_restart, dir_form, restart_allow, cross_age: false }
         })
         .boxed()
 }
@@ -602,9 +663,15 @@ pub fn run(tier: Tier, seed: u64) -> Report {
                 for i in 0..(2 * vs + 2) {
                     ops.push(Op::AddVersion { c: 0, parent: IdRef::Latest(0), data: d(10 + i) });
                 }
-                grid.push(BCase { hosts: vec![0], listen_style: ListStyle::Repeated, data_dir_src: Src::Flag, allow: None, allow_style: ListStyle::Repeated, snapshot_versions: (sv, vs), snapshot_days: (sd, ds), ops, salt: 2 * (k as u32 * 16 + j as u32) + 1, kill_restart: false, dir_form: 0, restart_allow: None });
+                grid.push(BCase { hosts: vec![0], listen_style: ListStyle::Repeated, data_dir_src: Src::Flag, allow: None, allow_style: ListStyle::Repeated, snapshot_versions: (sv, vs), snapshot_days: (sd, ds), ops, salt: 2 * (k as u32 * 16 + j as u32) + 1, kill_restart: false, dir_form: 0, restart_allow: None, cross_age: false });
             }
         }
+    }
+    // the snapshot crosses its age target while the server is running (flag and environment)
+    for (sd, src) in [(2i64, Src::Flag), (3, Src::Env)] {
+        let d = |seed: u32| BytesSpec { len: 4 + seed % 3, class: 2, seed };
+        let ops = vec![Op::AddVersion { c: 0, parent: IdRef::Nil, data: d(1) }, Op::AddSnapshot { c: 0, version: IdRef::Latest(0), data: d(2) }, Op::AddVersion { c: 0, parent: IdRef::Latest(0), data: d(3) }];
+        grid.push(BCase { hosts: vec![0], listen_style: ListStyle::Repeated, data_dir_src: Src::Flag, allow: None, allow_style: ListStyle::Repeated, snapshot_versions: (Src::Default, 100), snapshot_days: (src, sd), ops, salt: 7, kill_restart: sd == 3, dir_form: 0, restart_allow: None, cross_age: true });
     }
     let mut r = engine::enumerate_n("C17", "binary", 8, grid, check);
     r.exhaustive = false;
